@@ -161,7 +161,7 @@ def discr_switches(body, local):
     """switches that test the enum discriminant of `local`: [(block, term)]"""
     out = []
     for b, j, s in body.assigns():
-        if s['rv']['k'] == 'discr' and s['rv']['pl']['l'] == local and not s['rv']['pl']['p']:
+        if s['rv']['k'] == 'discr' and s['rv']['pl']['l'] == local and all(e == '*' for e in s['rv']['pl']['p']):
             out.extend(switch_on(body, s['lhs']['l']))
     return out
 
@@ -209,7 +209,14 @@ class ResultEdges:
         for l in sorted(fwd):
             if l == 0:
                 continue
-            head = ty_head(body.local_ty(l))
+            lty = body.local_ty(l)
+            while lty.startswith('&'):          # a reference to the result (e.g. handed to a helper): `discriminant(*r)`
+                lty = lty[1:].lstrip()
+                if lty.startswith('mut '):
+                    lty = lty[4:]
+                if lty.startswith("'") and ' ' in lty:
+                    lty = lty.split(' ', 1)[1]
+            head = ty_head(lty)
             if head not in RESULT_HEADS:
                 continue
             if head == 'core::option::Option' and not include_option:
